@@ -583,6 +583,23 @@ public:
         }
         else if (m_size < theSize)
         {
+            if (theSize > m_allocation &&
+                m_size != 0 &&
+                &theValue >= m_data &&
+                &theValue < m_data + m_size)
+            {
+                // The value is an element of this vector, and
+                // reallocating would destroy it before it's copied,
+                // so use a copy of it, as insert() does.
+                ThisType    theTemp(*m_memoryManager, 1);
+
+                theTemp.push_back(theValue);
+
+                resize(theSize, theTemp.back());
+
+                return;
+            }
+
             // Reserve memory up-front...
             reserve(theSize);
 
